@@ -13,14 +13,16 @@ from harness.core import hx, unhx, Violation, excname
 
 LEAN_TARGETS = ["PoorProofs.Props.C13"]
 AUDIT_IMPORTS = ["PoorProofs.Props.C13"]
-LEAN_FILES = ["PoorModel/Session.lean", "PoorProofs/Props/C13.lean"]
+LEAN_FILES = ["PoorModel/Base64.lean", "PoorProofs/Lemmas/Base64.lean", "PoorModel/Session.lean", "PoorProofs/Props/C13.lean"]
 THEOREMS = ["Poor.Props.C13.hidden_involutive", "Poor.Props.C13.C13_roundtrip", "Poor.Props.C13.C13_errors",
             "Poor.Props.C13.C13_reject_partial", "Poor.Props.C13.destroy_destroyed",
-            "Poor.Props.C13.write_keeps_destroyed", "Poor.Props.C13.C13_destroyed_expired", "Poor.Props.C13.C13_attrs"]
+            "Poor.Props.C13.write_keeps_destroyed", "Poor.Props.C13.C13_destroyed_expired", "Poor.Props.C13.C13_attrs",
+            "Poor.Base64.decode_encode", "Poor.Props.C13.C13_roundtrip_b64", "Poor.Props.C13.C13_value_nonempty"]
 TRUSTED_BASE = ["model Poor.Session hand-written from session.py:27-55, 238-312",
-                "json, bz2/zlib and base64 are parameters of the model with round-trip hypotheses (sampled here against the real modules)",
+                "json and bz2/zlib are parameters of the model with round-trip hypotheses (sampled here against the real modules); "
+                "base64 is modelled (Poor.Base64: the encoder and the non-strict decoder loop of binascii) and its round trip proved",
                 "sha512(secret) enters as the key-stream parameter; http.cookies.SimpleCookie renders/parses the attributes"]
-ASSUMPTIONS = ["json.loads(json.dumps(d)) == d, decompress(compress(x)) == x, b64decode(b64encode(x)) == x (CPython)",
+ASSUMPTIONS = ["json.loads(json.dumps(d)) == d, decompress(compress(x)) == x (CPython)",
                "'never restores the original data' is proved at plaintext level (C13_reject_partial); equality of parsed data is checked by the oracle"]
 RULE = ("dictionaries to depth 3 with non-ASCII keys/values, secrets str/bytes 1..128, compression {bz2, zlib, None}, every "
         "attribute subset, custom cookie names, round trip through Request cookie parsing, destroy before/after load with and "
@@ -76,6 +78,32 @@ def generate(rng, tier):
             for ops in seqs:
                 cases.append("C13 attrs %s %s" % (cfg_tok(dict(expires=exp, max_age=ma, domain="", path="/", secure=False,
                                                                same_site=False)), ops))
+    # base64 as the cookie uses it: encoder, and the lenient decoder on well-formed, mangled and arbitrary text
+    alpha = "ABCDEFGHIJKLMNOPQRSTUVWXYZabcdefghijklmnopqrstuvwxyz0123456789+/"
+    for k in list(range(0, 8)) + [rng.randrange(8, 300) for _ in range(20)]:
+        x = bytes(rng.getrandbits(8) for _ in range(k))
+        cases.append("C13 b64e " + hx(x))
+        enc = base64.b64encode(x)
+        cases.append("C13 b64d " + hx(enc))
+        for _ in range(6):
+            m = bytearray(enc)
+            op = rng.randrange(6)
+            if op == 0 and m:
+                del m[rng.randrange(len(m))]
+            elif op == 1:
+                m.insert(rng.randrange(len(m) + 1), rng.choice(b"= \n-_\xc5!A"))
+            elif op == 2 and m:
+                m[rng.randrange(len(m))] = rng.choice(b"=Az9+/ ")
+            elif op == 3:
+                m = m[:rng.randrange(len(m) + 1)]
+            elif op == 4:
+                m += rng.choice([b"=", b"==", b"===", b"A", b"AB=", b"\n", b"AAAA"])
+            else:
+                m = m.rstrip(b"=")
+            cases.append("C13 b64d " + hx(bytes(m)))
+    for _ in range(n):
+        s = "".join(rng.choice(alpha + "==== \n-_é") for _ in range(rng.randrange(0, 14)))
+        cases.append("C13 b64d " + hx(s.encode()))
     # value round trips (oracle only: the codec is CPython's)
     for _ in range(n):
         secret = rng.choice(["s", "secret ž", "x" * 128, b"\x00\xff", b"k" * 77, "🔑"])
@@ -161,6 +189,14 @@ def observe(case):
             return hx(bytes(b ^ key[i % len(key)] for i, b in enumerate(text))) if False else hx(impl_hidden_with_key(key, text))
         if t[1] == "attrs":
             return " | ".join(run_attrs(case)) or "-"
+        if t[1] == "b64e":
+            return hx(base64.b64encode(unhx(t[2])).decode())
+        if t[1] == "b64d":
+            import binascii
+            try:
+                return "ok " + hx(base64.b64decode(unhx(t[2])))      # session.py: b64decode(raw.encode())
+            except binascii.Error:
+                return "Error"
     except Exception as err:
         return excname(err)
     return "-"
@@ -220,6 +256,13 @@ def oracle(case):
                             a["P"] != (hx(cfg["path"]) if cfg["path"] else "-") or \
                             a["SS"] != (hx(cfg["same_site"]) if cfg["same_site"] else "-"):
                         return [Violation("c13-attrs", case, "cookie attributes %s do not match the configuration %r" % (outs[k - 1], cfg))]
+        return []
+    if t[1] == "b64e":
+        x = unhx(t[2])
+        if base64.b64decode(base64.b64encode(x)) != x:
+            return [Violation("c13-b64", case, "b64decode(b64encode(x)) != x")]
+        return []
+    if t[1] == "b64d":
         return []
     # rt: data round trip through the real Cookie header parser of the request object; foreign / truncated / garbage
     data = json.loads(unhx(t[2]).decode())
